@@ -1463,7 +1463,9 @@ def sweep(seed, directory, step, prefix_steps, spec=None, knobs=None, layers=("A
                 plans.append({"layer": "C", "kind": kind, "at": k, "of": twin_ex.syscalls})
     if "B" in layers and twin_ex.callbacks:
         stride = b_stride or max(1, twin_ex.callbacks // 40)
-        for k in range(0, twin_ex.callbacks, stride):
+        for k in sorted(set(range(0, twin_ex.callbacks, stride)) | {twin_ex.callbacks - 1, twin_ex.callbacks - 2}):
+            if k < 0:
+                continue
             plans.append({"layer": "B", "at": k, "of": twin_ex.callbacks, "every": trial.knobs.get("b_every")})
     if "L" in layers:
         for lock in LAYER_KINDS["L"]:
@@ -1696,7 +1698,7 @@ def check(tier, only=None):
                     for sh in range(cfg["large_shards"]):
                         jobs.append(("sweep", {"seed": runner.derive_seed(seed, "C20", "largesweep", rep, ci),
                                                "step": step, "prefix": list(prefix), "max_positions": cfg["large_max"],
-                                               "field": field, "size": size, "layers": ("A", "C"), "large": True,
+                                               "field": field, "size": size, "layers": ("A", "C", "B"), "large": True,
                                                "shard": (sh, cfg["large_shards"]),
                                                "want_samples": rep == 0 and ci == 0 and sh == 0}))
         jobs.sort(key=lambda j: (0 if j[1].get("large") else 1) if j[0] == "sweep" else 2)
